@@ -25,6 +25,7 @@ type probe struct {
 	kinds  []int  // renderer: 0 = ThematicBreak, 1 = custom kind
 	accept bool
 	mess   bool // inline probes: consume a byte before declining (the driver must restore the position)
+	indent bool // block probes: CanAcceptIndentedLine
 	log    *[]string
 }
 
@@ -53,7 +54,7 @@ func (b probeBlock) Continue(node ast.Node, reader text.Reader, pc parser.Contex
 }
 func (b probeBlock) Close(node ast.Node, reader text.Reader, pc parser.Context) {}
 func (b probeBlock) CanInterruptParagraph() bool                                { return true }
-func (b probeBlock) CanAcceptIndentedLine() bool                                { return false }
+func (b probeBlock) CanAcceptIndentedLine() bool                                { return b.p.indent }
 
 // ---- inline parser probe ----
 type probeInline struct{ p *probe }
@@ -230,6 +231,7 @@ func prioScenarios(c *Ctx, n int, roles []byte) {
 				default:
 					p.trig = []byte{'@'}
 				}
+				p.indent = c.R.Intn(3) != 0
 				compete++
 			case 'b':
 				p.mess = c.R.Bool()
@@ -258,10 +260,49 @@ func prioScenarios(c *Ctx, n int, roles []byte) {
 		var builtins []*probe
 		var doc string
 		var extra []goldmark.Option
+		part := ps // the probes that take part (an indented line is offered only to parsers that accept one)
 		switch role {
 		case 'a':
-			doc = "@x\n"
+			// the line with the trigger byte in several positions: at the margin, indented by 3
+			// (not an indented line), by 4, by a tab, inside a list item and a block quote with
+			// and without a further indentation of 4
+			ctx := it / len(roles) % 8
+			indented := false
+			switch ctx {
+			case 0, 1:
+				doc = "@x\n"
+			case 2:
+				doc = "   @x\n"
+			case 3:
+				doc, indented = "    @x\n", true
+			case 4:
+				doc, indented = "\t@x\n", true
+			case 5:
+				doc, indented = "- i\n\n      @x\n", true
+			case 6:
+				doc = "> @x\n"
+			default:
+				doc, indented = ">     @x\n", true
+			}
+			if ctx >= 5 {
+				// inside containers the trigger-less probes would also be consulted for the
+				// container's own lines: keep to triggered probes there
+				for _, p := range ps {
+					if p.trig == nil {
+						p.trig = []byte{'@'}
+					}
+				}
+			}
 			builtins = []*probe{{id: 500, prio: 500, trig: nil, accept: false}, {id: 1000, prio: 1000, trig: nil, accept: true}}
+			if indented {
+				part = nil
+				for _, p := range ps {
+					if p.indent {
+						part = append(part, p)
+					}
+				}
+				builtins = []*probe{{id: 500, prio: 500, trig: nil, accept: true}} // the indented code block parser takes the line
+			}
 		case 'b':
 			doc = "x@y\n"
 		case 'c':
@@ -290,7 +331,7 @@ func prioScenarios(c *Ctx, n int, roles []byte) {
 			obs = "FAIL:" + errS + panicS
 			c.Violate("dispatch-fails", map[string]string{"role": string(role), "components": descr(ps)}, errS+panicS, "dispatch-fails")
 		}
-		all := append(append([]*probe{}, ps...), builtins...)
+		all := append(append([]*probe{}, part...), builtins...)
 		// independent oracle: what "by priority value alone" predicts
 		want := c20Oracle(role, all)
 		if obs != want {
